@@ -201,8 +201,29 @@ func (server *Server) setupServe() {
 	if server.http1ConnChannelListener == nil {
 		server.http1ConnChannelListener = hack.NewChannelListener(server.ctx)
 		server.protectConnStateHook()
+		server.HTTPServer.Handler = tlsStateHandler(server.HTTPServer.Handler)
 		go server.serveHTTP1()
 	}
+}
+
+// HTTP/1.1 connections reach net/http wrapped in hack.TLSClientHelloConn, so
+// net/http does not recognize them as TLS and leaves Request.TLS nil, which
+// makes the reverse proxy report "X-Forwarded-Proto: http". Every connection
+// served here is TLS: fill Request.TLS from the state captured for the
+// connection before the request reaches the handler.
+func tlsStateHandler(next http.Handler) http.Handler {
+	if next == nil {
+		next = http.DefaultServeMux
+	}
+	return http.HandlerFunc(func(w http.ResponseWriter, r *http.Request) {
+		if r.TLS == nil {
+			if md, ok := metadata.FromContext(r.Context()); ok {
+				cs := md.ConnectionState
+				r.TLS = &cs
+			}
+		}
+		next.ServeHTTP(w, r)
+	})
 }
 
 // net/http calls the ConnState hook for new connections on the goroutine that
